@@ -1189,7 +1189,16 @@ class GroupBy:
         sq_sum = self._apply_gb_reduction("sum_squares", values=values, **kwargs)
         sum_sq = self.sum(values=values, **kwargs).to_numpy().astype(np.float64) ** 2
         count = self.count(values=values, **kwargs)
-        return (sq_sum - sum_sq / count) / (count - ddof)
+        # the one-pass numerator can round to a tiny negative number; a sum of
+        # squared deviations is never negative (and std would be NaN)
+        sum_sq_dev = sq_sum - sum_sq / count
+        if isinstance(sum_sq_dev, (pd.Series, pd.DataFrame)):
+            sum_sq_dev = sum_sq_dev.clip(lower=0)
+        elif isinstance(sum_sq_dev, pl.Series):
+            sum_sq_dev = sum_sq_dev.clip(lower_bound=0)
+        elif isinstance(sum_sq_dev, pl.DataFrame):
+            sum_sq_dev = sum_sq_dev.with_columns(pl.all().clip(lower_bound=0))
+        return sum_sq_dev / (count - ddof)
 
     @groupby_method(_GB_REDUCTION_DOCSTRING, full_name="standard deviation")
     def std(
